@@ -30,6 +30,8 @@ class Job:
 
 def run_job(job, work):
     if job.trace is None:
+        if isinstance(job.script, dict) and "dir" in job.script:
+            job.script["dir"] = os.path.join(work, "db-" + job.name)       # never two jobs on one database directory
         tp, status, rc, out = C.run_sim(job.script, work, job.name, binary=job.binary)
         job.driver_out = out
         if "WARNING: DATA RACE" in out:
@@ -214,6 +216,7 @@ def pool_jobs(tag, focus, s, nt, nops, work, cfg=None, weights=None, chunks=1, d
         for c in range(chunks):
             sc = GP.pool_script(s * 1000 + c * 17 + (3 if drv == "badger" else 0), max(1, nt // chunks), nops, drv, work, cfg=cfg, weights=weights,
                                 race=(binary != "vipsim"))
+            sc["dir"] = "%s/badger-%s-%s-%d" % (work, tag, drv, c)      # one database directory per job
             tcfg = "VipPoolTrace_fine.cfg" if (cfg or {}).get("tick", 1) > 1 else "VipPoolTrace.cfg"
             jobs.append(Job("%s-%s-%d" % (tag, drv, c), sc, "VipPoolTrace", tcfg, focus, binary=binary))
     return jobs
@@ -574,8 +577,11 @@ def c13(pid, tier, work, replay):
     cj.trace = trace
     nt, nops = sized(tier, (30, 40), (400, 60))
     rj = Job("c13-reopen", reopen_script(s * 1000 + 13, nt, nops, work), "VipStoreTrace", "VipStoreTrace.cfg", "all")
+    # what concurrent readers see while a trial balance migrates to a wallet (real parallelism, persistent driver)
+    readers = pool_jobs("c13read", "C13race", s + 3, sized(tier, 60, 800), 0, work, cfg=dict(RACE_CFG, linkread=True), weights=dict(burst=1),
+                        chunks=1 if tier == "quick" else 4, drivers=("badger",), binary="viprace")
     return trace_family(
-        pid, tier, work, [("VipStoreMC", "VipStoreMC_bal.cfg")], [cj, rj],
+        pid, tier, work, [("VipStoreMC", "VipStoreMC_bal.cfg")], [cj, rj] + readers,
         ["a crash is a process kill (SIGKILL): what the OS has accepted survives; power loss is out of scope",
          "the badger directory is opened exactly with the options pool.go uses (badger.DefaultOptions) in the crash rounds",
          "nonce records of older on-disk formats are discarded by the migration by design: no verdict on nonces after a downgrade"],
@@ -599,6 +605,9 @@ def c10(pid, tier, work, replay):
     jobs += pool_jobs("c10fresh", "C10race", s + 5, sized(tier, 120, 1500), 0, work, cfg=dict(RACE_CFG, allclients=True),
                       weights=dict(burst=1), chunks=1 if tier == "quick" else 4, binary="viprace")
     jobs += nonce_race_jobs("c10nonce", s, tier, work)
+    jobs += race_jobs("c10wallet", s, tier, work, "wallet")          # racing withdrawals: never more paid than held (VipPoolConc: NeverOverpaid)
+    jobs += pool_jobs("c10read", "C10race", s + 3, sized(tier, 40, 600), 0, work, cfg=dict(RACE_CFG, linkread=True), weights=dict(burst=1),
+                      chunks=1, drivers=("memory", "badger"), binary="viprace")
     return trace_family(
         pid, tier, work, CONC_MC + [("VipStoreMC", "VipStoreMC_bal.cfg"), ("VipPoolMC", "VipPoolMC_bill_q.cfg" if tier == "quick" else "VipPoolMC_bill.cfg")], jobs,
         POOL_ASSUME + ["bursts run under the fake clock with a single P: goroutines interleave at blocking points (channel, mutex, pipe I/O, badger commit), "
